@@ -180,6 +180,7 @@ func main() {
 			Describe: func(i int64) any { return sp.CrossCase(i).Describe() },
 			Run:      func(i int64, w *enum.Worker) { run(sp.CrossCase(i), w, 3) }},
 	}
+	phases = append(phases, builtPhases(r, sp)...)
 	r.Coverage["rule"] = "every serializable layer of every packet decoded from the deviation<=1 neighbourhoods (including layers of packets that ended in an error layer) and from every seed decoded as every first layer: written over its own payload with each of the 4 FixLengths/ComputeChecksums combinations into buffers with different histories (fresh; cleared after holding 3000+3000 bytes of 0xAA/0x55; expected-size hints; unmodified seeds and the thorough tier: all 8 histories) - the layer is decoded anew for every write; all histories must agree on error-or-not and on the bytes; no panic; the same value written three times gives the same bytes the second and third time. distinct_nontrivial = distinct (layer type, error, output size class) outcomes."
 	r.Assumptions = []string{"transport layers get the packet's network layer attached for checksums, as the API requires"}
 	enum.Main(r, phases)
